@@ -167,3 +167,47 @@ Example C37_wellformed_history_example :
             RemoveNodes [3] false; RemovePreviousConnections [3]]
       = Ok (mkG [] [] [] [] None []).
 Proof. eexists. split; [vm_compute; reflexivity|]. split; vm_compute; reflexivity. Qed.
+
+(* ------------------------------------------------------------------------------------------
+   remove_successors_nodes: the analogue of the three theorems above is FALSE, and this is
+   machine-checked rather than noted: on the chain 0->1->2, after remove_nodes(2, check_ready=False)
+   and remove_nodes(0) (a state that is wf2 and inv2, and on which Spec.Graph.pre_opb accepts
+   remove_successors_nodes(0)), the call returns, its result still has a valid order (C37's own
+   statement holds: C37_reachable covers it), but it is no longer well-formed: edge (1,2) and
+   predecessors[2]=[1] stay recorded although node 1 has been popped (a follower's successor
+   that is already marked for removal is not itself treated as a follower).  Replayed against
+   pydra/engine/graph.py: identical state (design/C37.md).  An internal inconsistency after an
+   unusual call order, not a violation of C37. *)
+From Pydra Require Import Proofs.GraphWf3.
+
+Theorem C37_wellformed_remove_successors_nodes_refuted :
+  exists g g', wf2 g /\ inv2 g /\ pre_opb g (RemoveSuccessorsNodes 0) = true /\
+               step g (RemoveSuccessorsNodes 0) = Ok g' /\
+               ~ wf2 g' /\ ~ consistent g' /\ sorted_ok g' /\ sorted_ok_preds g'.
+Proof. exact remove_successors_nodes_breaks_wf2. Qed.
+Print Assumptions C37_wellformed_remove_successors_nodes_refuted.
+
+(* the pre-state of the witness is reached from the constructor by two well-formed remove_nodes calls *)
+Example C37_refuted_witness_reachable :
+  exists g0, init [0; 1; 2] [(0, 1); (1, 2)] = Ok g0 /\
+             run g0 [RemoveNodes [2] false; RemoveNodes [0] true] = Ok w_pre.
+Proof. exact w_pre_reached. Qed.
+
+(* What IS proved for remove_successors_nodes: on a node without successors (the last node of a
+   failed branch) it coincides with remove_nodes_connections, hence succeeds and keeps wf2.
+   The general positive statement needs a hypothesis excluding the witness above (no follower has
+   a successor already marked for removal) and the depth bound of the traversal; not proved. *)
+Theorem C37_wellformed_remove_successors_nodes_leaf_partial :
+  forall g n, wf2 g -> inv2 g -> pre_opb g (RemoveSuccessorsNodes n) = true ->
+    dget (g_succs g) n = Some [] ->
+    exists g', step g (RemoveSuccessorsNodes n) = Ok g' /\ wf2 g' /\ inv2 g' /\ sorted_ok g' /\ sorted_ok_preds g'.
+Proof. exact wellformed_remove_successors_leaf. Qed.
+Print Assumptions C37_wellformed_remove_successors_nodes_leaf_partial.
+
+Example C37_leaf_example :
+  let ops := [RemoveNodes [0] true; RemoveNodesConnections [0]; RemoveNodes [1; 2] true;
+              RemoveNodesConnections [2; 1]; RemoveNodes [3] true] in
+  exists g0 g, init [0; 1; 2; 3] [(0, 1); (0, 2); (1, 3); (2, 3)] = Ok g0 /\ history_ok g0 ops = true /\
+    run g0 ops = Ok g /\ pre_opb g (RemoveSuccessorsNodes 3) = true /\ dget (g_succs g) 3 = Some [] /\
+    step g (RemoveSuccessorsNodes 3) = Ok (mkG [] [] [] [] None []).
+Proof. eexists. eexists. split; [vm_compute; reflexivity|]. repeat split; vm_compute; reflexivity. Qed.
